@@ -1450,6 +1450,8 @@ def stack(seq, axis=0, allow_unknown_chunksizes=False):
 
     assert len({a.chunks for a in seq2}) == 1  # same chunks
 
+    # the stacked metas have length len(seq) along the new axis: reduce to a zero-size meta
+    meta = meta_from_array(meta, ndim=meta.ndim, dtype=meta.dtype)
     return new_collection(Stack(seq2[0], axis, meta, *seq2[1:]))
 
 
